@@ -270,12 +270,15 @@ Lemma collapse_ident a b a' b' : ident_of a = ident_of a' -> ident_of b = ident_
 Proof. unfold ident_of. intros H1 H2. injection H1 as E1 E2 E3 E4 E5. injection H2 as F1 F2 F3 F4 F5.
   unfold collapse. rewrite E3, E2, E4, F3, F2. reflexivity. Qed.
 
+Lemma map_cons_inv {A B} (f : A -> B) x a y b : map f (x :: a) = map f (y :: b) -> f x = f y /\ map f a = map f b.
+Proof. simpl. intros H. split; congruence. Qed.
+
 Lemma no_collapsible_ident : forall a b, map ident_of a = map ident_of b -> no_collapsible a -> no_collapsible b.
 Proof. induction a as [|x a IH]; intros [|y b] H; try discriminate; auto.
-  injection H as Hx H. destruct a as [|x2 a], b as [|y2 b]; try discriminate; auto.
-  intros [H1 H2]. injection H as Hx2 H. split.
+  apply map_cons_inv in H as [Hx H]. destruct a as [|x2 a], b as [|y2 b]; try discriminate; auto.
+  intros [G1 G2]. pose proof H as H'. apply map_cons_inv in H' as [Hx2 _]. split.
   - rewrite <- (collapse_ident x x2 y y2); auto.
-  - apply IH; auto. simpl. now rewrite Hx2, H. Qed.
+  - apply IH; auto. Qed.
 
 Lemma sorted_map {A B} (R : A -> A -> Prop) (Q : B -> B -> Prop) (f : A -> B) l :
   (forall a b, R a b -> Q (f a) (f b)) -> StronglySorted R l -> StronglySorted Q (map f l).
@@ -371,35 +374,37 @@ Proof. induction l as [|x l IH]; intros p s H Hg.
     + simpl in *. tauto.
     + simpl in H. destruct H as [H1 H2]. simpl. split; auto. apply (IH p s); auto. Qed.
 
-Lemma runs_loop_concat srt : forall l prev cur, concat (runs_loop srt prev cur l) = cur ++ l.
-Proof. induction l as [|s r IH]; intros prev cur; simpl.
-  - now rewrite app_nil_r.
-  - destruct prev as [p|].
-    + destruct (sline s >? 1 + sendline p)%Z; simpl; rewrite IH; [reflexivity|now rewrite <- app_assoc].
+Lemma runs_loop_concat : forall l prev cur, concat (runs_loop prev cur l) = cur ++ l.
+Proof. induction l as [|s r IH]; intros prev cur.
+  - simpl. now rewrite app_nil_r.
+  - cbn [runs_loop]. destruct prev as [p|].
+    + destruct (sline s >? 1 + sendline p)%Z.
+      * cbn [concat]. rewrite IH. reflexivity.
+      * rewrite IH. now rewrite <- app_assoc.
     + rewrite IH. now rewrite <- app_assoc. Qed.
 
-Lemma runs_loop_spec srt : forall l cur0 p, contiguous (cur0 ++ [p]) ->
-  exists x rest, runs_loop srt (Some p) (cur0 ++ [p]) l = (cur0 ++ [p] ++ x) :: rest /\
+Lemma runs_loop_spec : forall l cur0 p, contiguous (cur0 ++ [p]) ->
+  exists x rest, runs_loop (Some p) (cur0 ++ [p]) l = (cur0 ++ [p] ++ x) :: rest /\
     contiguous (cur0 ++ [p] ++ x) /\ Forall contiguous rest /\ Forall (fun r => r <> []) rest /\
     separated ((cur0 ++ [p] ++ x) :: rest).
 Proof.
   induction l as [|s r IH]; intros cur0 p Hc.
-  - exists [], []. simpl. rewrite app_nil_r. auto.
+  - exists [], []. simpl. auto.
   - cbn [runs_loop]. fold (gap p s). destruct (gap p s) eqn:Eg.
     + destruct (IH [] s I) as (x' & rest' & H1 & H2 & H3 & H4 & H5). simpl app in *.
-      exists [], ((s :: x') :: rest'). rewrite H1, app_nil_r. repeat split; auto.
+      exists [], ((s :: x') :: rest'). rewrite H1. simpl app. repeat split; auto.
       * constructor; auto. discriminate.
       * exists cur0, p, s, x'. auto.
     + destruct (IH (cur0 ++ [p]) s (contiguous_snoc _ _ _ Hc Eg)) as (x' & rest' & H1 & H2 & H3 & H4 & H5).
       exists (s :: x'), rest'. rewrite H1. rewrite <- !app_assoc in *. simpl app in *. auto.
 Qed.
 
-Lemma runs_spec srt specs : specs <> [] ->
-  concat (runs srt specs) = specs /\ Forall contiguous (runs srt specs) /\
-  Forall (fun r => r <> []) (runs srt specs) /\ separated (runs srt specs).
+Lemma runs_spec specs : specs <> [] ->
+  concat (runs specs) = specs /\ Forall contiguous (runs specs) /\
+  Forall (fun r => r <> []) (runs specs) /\ separated (runs specs).
 Proof.
   intros Hne. split; [apply runs_loop_concat|]. unfold runs. destruct specs as [|s r]; [congruence|].
-  cbn [runs_loop]. destruct (runs_loop_spec srt r [] s I) as (x & rest & H1 & H2 & H3 & H4 & H5).
+  cbn [runs_loop]. destruct (runs_loop_spec r [] s I) as (x & rest & H1 & H2 & H3 & H4 & H5).
   simpl app in *. rewrite H1. repeat split; auto. constructor; auto. discriminate. Qed.
 
 (* ------------------------------------------------------------------ one import block *)
@@ -409,8 +414,8 @@ Proof. intros Hs. induction rs as [|r t IH]; [exists []; simpl; auto|].
   exists (r' :: t'). cbn [sort_runs]. rewrite H1, H3. simpl. auto. Qed.
 
 Lemma sort_block_post srt : sorter_ok srt -> forall specs,
-  exists rs', sort_block srt specs = Ok (concat rs') /\ Forall2 run_post (runs srt specs) rs'.
-Proof. intros Hs specs. destruct (sort_runs_post srt Hs (runs srt specs)) as (rs' & H1 & H2).
+  exists rs', sort_block srt specs = Ok (concat rs') /\ Forall2 run_post (runs specs) rs'.
+Proof. intros Hs specs. destruct (sort_runs_post srt Hs (runs specs)) as (rs' & H1 & H2).
   exists rs'. unfold sort_block. rewrite H1. auto. Qed.
 
 Lemma Forall2_set rs rs' : Forall2 run_post rs rs' ->
@@ -418,10 +423,10 @@ Lemma Forall2_set rs rs' : Forall2 run_post rs rs' ->
 Proof. induction 1 as [|r r' t t' Hr Ht IH]; intros p; [tauto|].
   simpl. rewrite !map_app, !in_app_iff, IH, (rp_set _ _ Hr). tauto. Qed.
 
-Definition block_post srt (specs out : list spec) : Prop :=
-  exists rs', out = concat rs' /\ Forall2 run_post (runs srt specs) rs'.
+Definition block_post (specs out : list spec) : Prop :=
+  exists rs', out = concat rs' /\ Forall2 run_post (runs specs) rs'.
 
-Lemma block_post_set srt specs out : block_post srt specs out ->
+Lemma block_post_set specs out : block_post specs out ->
   forall p, In p (map np_of out) <-> In p (map np_of specs).
 Proof. intros (rs' & -> & H) p. rewrite (Forall2_set _ _ H). unfold runs. now rewrite runs_loop_concat. Qed.
 
@@ -429,7 +434,7 @@ Lemma Forall2_atomic rs rs' : Forall2 run_post rs rs' -> incl (map ident_of (con
 Proof. induction 1 as [|r r' t t' Hr Ht IH]; [simpl; apply incl_refl|].
   simpl. rewrite !map_app. apply incl_app; [apply incl_appl, run_post_atomic, Hr|apply incl_appr, IH]. Qed.
 
-Lemma block_post_atomic srt specs out : block_post srt specs out -> incl (map ident_of out) (map ident_of specs).
+Lemma block_post_atomic specs out : block_post specs out -> incl (map ident_of out) (map ident_of specs).
 Proof. intros (rs' & -> & H). pose proof (Forall2_atomic _ _ H) as A. unfold runs in A. now rewrite runs_loop_concat in A. Qed.
 
 Lemma Forall2_sub rs rs' : Forall2 run_post rs rs' ->
@@ -445,22 +450,22 @@ Proof. induction 1 as [|r r' t t' Hr Ht IH]; [exists []; simpl; auto|].
   - apply Forall_app. split; (eapply Forall_impl; [|eassumption]); intros d [Ha Hb]; split; auto;
       simpl; rewrite map_app; apply in_or_app; auto. Qed.
 
-Lemma block_post_drops srt specs out : block_post srt specs out ->
+Lemma block_post_drops specs out : block_post specs out ->
   exists dropped, Permutation (map ident_of specs) (map ident_of out ++ map ident_of dropped) /\
                   Forall (dropped_ok out) dropped.
 Proof. intros (rs' & -> & H). destruct (Forall2_sub _ _ H) as (d & P & F). exists d. split; auto.
   unfold runs in P. now rewrite runs_loop_concat in P. Qed.
 
 (* ------------------------------------------------------------------ the whole file *)
-Fixpoint file_post srt (ds ds' : list decl) : Prop :=
+Fixpoint file_post (ds ds' : list decl) : Prop :=
   match ds with
   | [] => ds' = []
   | OtherDecl :: _ => ds' = ds                                  (* nothing after the first other declaration is touched *)
-  | ImportDecl false sp :: r => exists r', ds' = ImportDecl false sp :: r' /\ file_post srt r r'
-  | ImportDecl true sp :: r => exists sp' r', ds' = ImportDecl true sp' :: r' /\ block_post srt sp sp' /\ file_post srt r r'
+  | ImportDecl false sp :: r => exists r', ds' = ImportDecl false sp :: r' /\ file_post r r'
+  | ImportDecl true sp :: r => exists sp' r', ds' = ImportDecl true sp' :: r' /\ block_post sp sp' /\ file_post r r'
   end.
 
-Lemma sort_imports_post srt : sorter_ok srt -> forall ds, exists ds', sort_imports srt ds = Ok ds' /\ file_post srt ds ds'.
+Lemma sort_imports_post srt : sorter_ok srt -> forall ds, exists ds', sort_imports srt ds = Ok ds' /\ file_post ds ds'.
 Proof. intros Hs. induction ds as [|d r IH]; [exists []; simpl; auto|].
   destruct IH as (r' & H1 & H2). destruct d as [[|] sp|].
   - destruct (sort_block_post srt Hs sp) as (rs' & H3 & H4).
@@ -472,29 +477,29 @@ Proof. intros Hs. induction ds as [|d r IH]; [exists []; simpl; auto|].
 Definition decl_specs (d : decl) : list spec := match d with ImportDecl _ sp => sp | OtherDecl => [] end.
 Definition file_specs (ds : list decl) : list spec := concat (map decl_specs ds).
 
-Lemma file_post_set srt : forall ds ds', file_post srt ds ds' ->
+Lemma file_post_set : forall ds ds', file_post ds ds' ->
   forall p, In p (map np_of (file_specs ds')) <-> In p (map np_of (file_specs ds)).
 Proof. induction ds as [|d r IH]; intros ds' H p.
   - simpl in H. subst. tauto.
   - destruct d as [[|] sp|]; simpl in H.
     + destruct H as (sp' & r' & -> & Hb & Hr). unfold file_specs. simpl. rewrite !map_app, !in_app_iff.
-      rewrite (block_post_set _ _ _ Hb). specialize (IH r' Hr p). unfold file_specs in IH. rewrite IH. tauto.
+      rewrite (block_post_set _ _ Hb). specialize (IH r' Hr p). unfold file_specs in IH. rewrite IH. tauto.
     + destruct H as (r' & -> & Hr). unfold file_specs. simpl. rewrite !map_app, !in_app_iff.
       specialize (IH r' Hr p). unfold file_specs in IH. rewrite IH. tauto.
     + subst. tauto. Qed.
 
-Lemma file_post_atomic srt : forall ds ds', file_post srt ds ds' ->
+Lemma file_post_atomic : forall ds ds', file_post ds ds' ->
   incl (map ident_of (file_specs ds')) (map ident_of (file_specs ds)).
 Proof. induction ds as [|d r IH]; intros ds' H.
   - simpl in H. subst. apply incl_refl.
   - destruct d as [[|] sp|]; simpl in H.
     + destruct H as (sp' & r' & -> & Hb & Hr). unfold file_specs. simpl. rewrite !map_app.
-      apply incl_app; [apply incl_appl, (block_post_atomic _ _ _ Hb)|apply incl_appr, (IH r' Hr)].
+      apply incl_app; [apply incl_appl, (block_post_atomic _ _ Hb)|apply incl_appr, (IH r' Hr)].
     + destruct H as (r' & -> & Hr). unfold file_specs. simpl. rewrite !map_app.
       apply incl_app; [apply incl_appl, incl_refl|apply incl_appr, (IH r' Hr)].
     + subst. apply incl_refl. Qed.
 
-Lemma file_post_drops srt : forall ds ds', file_post srt ds ds' ->
+Lemma file_post_drops : forall ds ds', file_post ds ds' ->
   exists dropped, Permutation (map ident_of (file_specs ds)) (map ident_of (file_specs ds') ++ map ident_of dropped) /\
                   Forall (dropped_ok (file_specs ds')) dropped.
 Proof. induction ds as [|d r IH]; intros ds' H.
@@ -511,8 +516,119 @@ Proof. induction ds as [|d r IH]; intros ds' H.
       - apply Forall_app. split; (eapply Forall_impl; [|eassumption]); intros x [Ha Hb]; split; auto;
           rewrite map_app; apply in_or_app; auto. }
     destruct d as [[|] sp|]; simpl in H.
-    + destruct H as (sp' & r' & -> & Hb & Hr). destruct (block_post_drops _ _ _ Hb) as (d1 & P1 & F1).
+    + destruct H as (sp' & r' & -> & Hb & Hr). destruct (block_post_drops _ _ Hb) as (d1 & P1 & F1).
       destruct (IH r' Hr) as (d2 & P2 & F2). exists (d1 ++ d2). unfold file_specs in *. simpl. apply G; auto.
     + destruct H as (r' & -> & Hr). destruct (IH r' Hr) as (d2 & P2 & F2). exists ([] ++ d2).
       unfold file_specs in *. simpl concat. apply G; auto. simpl. now rewrite app_nil_r.
     + subst. exists []. simpl. rewrite app_nil_r. auto. Qed.
+
+(* ------------------------------------------------------------------ sort.Slice is not stable: ties *)
+Lemma sorted_perm_unique {A} (R : A -> A -> Prop) : (forall a b, R a b -> R b a -> a = b) ->
+  forall l1 l2, StronglySorted R l1 -> StronglySorted R l2 -> Permutation l1 l2 -> l1 = l2.
+Proof.
+  intros Anti. induction l1 as [|a l1 IH]; intros l2 S1 S2 P.
+  - apply Permutation_nil in P. auto.
+  - destruct l2 as [|b l2]; [apply Permutation_sym, Permutation_nil in P; discriminate|].
+    inversion S1 as [|? ? S1' F1]; inversion S2 as [|? ? S2' F2]; subst.
+    assert (E : a = b).
+    { assert (Ia : In a (b :: l2)) by (eapply Permutation_in; [exact P|left; auto]).
+      assert (Ib : In b (a :: l1)) by (eapply Permutation_in; [apply Permutation_sym, P|left; auto]).
+      destruct Ia as [->|Ia]; auto. destruct Ib as [->|Ib]; auto.
+      rewrite Forall_forall in F1, F2. apply Anti; auto. }
+    subst. f_equal. apply IH; auto. eapply Permutation_cons_inv; eauto.
+Qed.
+
+(* any two sorted permutations of a run carry the same key sequence *)
+Lemma sorters_same_keys s1 s2 : sorter_ok s1 -> sorter_ok s2 -> forall l, map key_of (s1 l) = map key_of (s2 l).
+Proof. intros H1 H2 l. destruct (H1 l) as [P1 S1], (H2 l) as [P2 S2].
+  apply (sorted_perm_unique key_le key_le_antisym).
+  - apply sorted_map with (R := le); auto. intros a b; apply le_key.
+  - apply sorted_map with (R := le); auto. intros a b; apply le_key.
+  - apply Permutation_map. eapply perm_trans; [apply Permutation_sym, P1|exact P2]. Qed.
+
+Definition obs : Type := (key * bool)%type.
+Definition obs_of (s : spec) : obs := (key_of s, shasc s).
+
+Lemma map_obs_ident a b : map ident_of a = map ident_of b -> map obs_of a = map obs_of b.
+Proof. apply (map_via_ident (fun i => let '(_, n, p, h, c) := i in ((p, n, c), h))). Qed.
+
+Lemma existsb_false {A} (f : A -> bool) l : existsb f l = false -> forall x, In x l -> f x = false.
+Proof. intros H x Hx. destruct (f x) eqn:E; auto.
+  assert (existsb f l = true) by (apply existsb_exists; eauto). congruence. Qed.
+
+Lemma key_eqb_true a b : key_of a = key_of b -> key_eqb a b = true.
+Proof. unfold key_of, key_eqb. intros H. injection H as -> -> ->. now rewrite !str_eqb_refl. Qed.
+
+Lemma no_mixed run : mixed_ties run = false ->
+  forall a b, In a run -> In b run -> key_of a = key_of b -> shasc a = shasc b.
+Proof. intros H a b Ha Hb Hk. unfold mixed_ties in H.
+  pose proof (existsb_false _ _ H a Ha) as H1. cbv beta in H1.
+  pose proof (existsb_false _ _ H1 b Hb) as H2. cbv beta in H2.
+  rewrite (key_eqb_true a b Hk) in H2. simpl in H2. apply negb_false_iff in H2. now apply eqb_prop. Qed.
+
+Lemma keys_to_obs : forall l1 l2, map key_of l1 = map key_of l2 ->
+  (forall a b, In a l1 -> In b l2 -> key_of a = key_of b -> shasc a = shasc b) -> map obs_of l1 = map obs_of l2.
+Proof. induction l1 as [|a l1 IH]; intros [|b l2] H Hs; try discriminate; auto.
+  apply map_cons_inv in H as [Hk H]. simpl. f_equal.
+  - unfold obs_of. rewrite Hk, (Hs a b); simpl; auto.
+  - apply IH; auto. intros x y Hx Hy. apply Hs; simpl; auto. Qed.
+
+Lemma collapse_obs a b a' b' : obs_of a = obs_of a' -> obs_of b = obs_of b' -> collapse a b = collapse a' b'.
+Proof. unfold obs_of, key_of. intros H1 H2. injection H1 as E1 E2 E3 E4. injection H2 as F1 F2 F3 F4.
+  unfold collapse. rewrite E1, E2, E4, F1, F2. reflexivity. Qed.
+
+Lemma dedupe_obs : forall l1 l2, map obs_of l1 = map obs_of l2 -> map obs_of (dedupe l1) = map obs_of (dedupe l2).
+Proof. induction l1 as [|s r IH]; intros [|s' r'] H; try discriminate; auto.
+  pose proof H as H0. apply map_cons_inv in H0 as [Hs Hr].
+  destruct r as [|n r1], r' as [|n' r1']; try discriminate.
+  - simpl. now rewrite Hs.
+  - pose proof Hr as H1. apply map_cons_inv in H1 as [Hn _].
+    rewrite !dedupe_cons2, (collapse_obs s n s' n' Hs Hn). destruct (collapse s' n').
+    + apply IH; auto.
+    + rewrite !map_cons, Hs. f_equal. apply IH; auto. Qed.
+
+Lemma tie_independent s1 s2 run o1 o2 : sorter_ok s1 -> sorter_ok s2 -> mixed_ties run = false ->
+  sort_specs s1 run = Ok o1 -> sort_specs s2 run = Ok o2 ->
+  map obs_of o1 = map obs_of o2 /\ map span_of o1 = map span_of o2.
+Proof.
+  intros H1 H2 Hm E1 E2. unfold sort_specs in *. destruct (Nat.leb (length run) 1).
+  - injection E1 as <-. injection E2 as <-. auto.
+  - destruct (H1 run) as [P1 _], (H2 run) as [P2 _].
+    assert (Ho : map obs_of (s1 run) = map obs_of (s2 run)).
+    { apply keys_to_obs; [apply sorters_same_keys; auto|]. intros a b Ha Hb.
+      apply (no_mixed run Hm).
+      - exact (Permutation_in a (Permutation_sym P1) Ha).
+      - exact (Permutation_in b (Permutation_sym P2) Hb). }
+    apply dedupe_obs in Ho.
+    assert (L : forall s, Permutation run (s run) -> (length (dedupe (s run)) <= length (map span_of run))%nat).
+    { intros s P. rewrite map_length, (Permutation_length P). apply subseq_length, dedupe_subseq. }
+    destruct (reassign_spec _ _ (L s1 P1)) as (x1 & A1 & B1 & C1).
+    destruct (reassign_spec _ _ (L s2 P2)) as (x2 & A2 & B2 & C2).
+    rewrite A1 in E1. rewrite A2 in E2. injection E1 as <-. injection E2 as <-. split.
+    + rewrite (map_obs_ident _ _ B1), (map_obs_ident _ _ B2). exact Ho.
+    + rewrite C1, C2. f_equal. rewrite <- (map_length obs_of), Ho, map_length. reflexivity.
+Qed.
+
+(* with mixed ties the sorts may disagree on which duplicate survives, but never on the sorted key sequence *)
+Lemma mixed_example_differs :
+  let a := mkSpec 0 [] [97%N] false [] 0 0 1 1 in
+  let b := mkSpec 1 [] [97%N] true [] 0 0 2 2 in
+  dedupe [a; b] = [b] /\ dedupe [b; a] = [b; a] /\ key_of a = key_of b.
+Proof. vm_compute. auto. Qed.
+
+(* ------------------------------------------------------------------ file-level statements on the function *)
+Lemma sort_imports_set srt : sorter_ok srt -> forall ds ds', sort_imports srt ds = Ok ds' ->
+  forall p, In p (map np_of (file_specs ds')) <-> In p (map np_of (file_specs ds)).
+Proof. intros Hs ds ds' H. destruct (sort_imports_post srt Hs ds) as (x & H1 & H2).
+  rewrite H1 in H. injection H as <-. now apply file_post_set. Qed.
+
+Lemma sort_imports_drops srt : sorter_ok srt -> forall ds ds', sort_imports srt ds = Ok ds' ->
+  exists dropped, Permutation (map ident_of (file_specs ds)) (map ident_of (file_specs ds') ++ map ident_of dropped) /\
+                  Forall (dropped_ok (file_specs ds')) dropped.
+Proof. intros Hs ds ds' H. destruct (sort_imports_post srt Hs ds) as (x & H1 & H2).
+  rewrite H1 in H. injection H as <-. now apply file_post_drops. Qed.
+
+Lemma sort_imports_atomic srt : sorter_ok srt -> forall ds ds', sort_imports srt ds = Ok ds' ->
+  incl (map ident_of (file_specs ds')) (map ident_of (file_specs ds)).
+Proof. intros Hs ds ds' H. destruct (sort_imports_post srt Hs ds) as (x & H1 & H2).
+  rewrite H1 in H. injection H as <-. now apply file_post_atomic. Qed.
